@@ -11,19 +11,23 @@ Notation exec := (exec fixed).
 Lemma inv_set_pres X W D T G s p l :
   inv X W D T G s -> alive s p = true ->
   (forall m, In m (G p SMem) -> In m l) ->
+  (tagof s p = TO KPool -> ~ In p W -> (l <> [] \/ pslots s p <> 0) -> oinner s p <> None) ->
   inv X W D T G (set_pres s (upd (pres s) p l)).
 Proof.
-  intros Hi Hp Hl.
+  intros Hi Hp Hl Hpbl.
   assert (Hlt : p < nxt s) by (eapply inv_lt; eassumption).
   destruct Hi as [Aheap Amem1 Amem2 Aown Afresh Atag Adead Ainner Aitag Ainj Aiown Agin Apres Adev Abuf Acur Acurinj
-                  Ahand Avars Avinj AT ATnd Alive Alognd Alog AD Acs].
+                  Ahand Avars Avinj AT ATnd Alive Alognd Alog AD Acs Apb].
   constructor; simpl_st; try assumption.
   - destruct Aheap. constructor; simpl_st; assumption.
   - intros e He. destruct (Afresh e He) as (A1 & A2 & A3 & A4 & A5 & A6 & A7 & A8 & A9). repeat split; try tauto.
     rewrite upd_other by lia. exact A8.
-  - intros q m Ha Ht Hm. destruct (Nat.eq_dec q p) as [->|Hne].
+  - intros q m Ha Ht Hw Hm. destruct (Nat.eq_dec q p) as [->|Hne].
     + rewrite upd_same. now apply Hl.
     + rewrite upd_other by exact Hne. now apply Apres.
+  - intros q Ha Ht Hw. destruct (Nat.eq_dec q p) as [->|Hne].
+    + rewrite upd_same. now apply Hpbl.
+    + rewrite upd_other by exact Hne. now apply Apb.
 Qed.
 
 Lemma shrink_pres s p l : shrink s (set_pres s (upd (pres s) p l)).
@@ -67,7 +71,7 @@ Proof.
       eapply inv_unlink; try eassumption; [apply incl_refl|]. intros _ k Hk. rewrite Htb in Hk. injection Hk as <-.
       intros _. fold G'. rewrite EG. discriminate.
   - (* pool *)
-    assert (Hpres : In m (pres s b)) by (apply (i_pres _ _ _ _ _ _ _ Hi b m Hab Htb Hin)).
+    assert (Hpres : In m (pres s b)) by (apply (i_pres _ _ _ _ _ _ _ Hi b m Hab Htb Hbw Hin)).
     set (s2 := set_pres s1 (upd (pres s1) b (remove_nat m (pres s1 b)))).
     exists s2. split; [|split; [|split]].
     { unfold buf_removeModeMemoryRef. erewrite bind_run by (apply need_run; exact Hab).
@@ -83,10 +87,13 @@ Proof.
     { eapply inv_unlink; try eassumption; [apply incl_refl|]. intros _ k Hk. rewrite Htb in Hk. injection Hk as <-.
       intros Hu. fold G'. unfold G'. rewrite upd2_other by (right; discriminate). now apply Hlive. }
     assert (Hi2 : inv (m :: X) W D T G' s2).
-    { apply inv_set_pres; [exact Hi1|exact Hab1|].
+    { apply inv_set_pres; [exact Hi1|exact Hab1| |].
+      2:{ intros _ Hw' Hc. rewrite S8. apply (i_pool_buf _ _ _ _ _ _ _ Hi b Hab Htb Hw').
+          destruct Hc as [Hc|Hc]; [left|right; rewrite <- S13; exact Hc].
+          intros E. apply Hc. rewrite S12, E. reflexivity. }
       intros m' Hm'. unfold G' in Hm'. rewrite upd2_same in Hm'.
       apply ring_remove_In in Hm'; [|apply (hk_nd _ _ (i_heap _ _ _ _ _ _ _ Hi))]. destruct Hm' as [Hm1 Hm2].
-      rewrite S12. apply remove_nat_In_ne; [|exact Hm2]. apply (i_pres _ _ _ _ _ _ _ Hi b m' Hab Htb Hm1). }
+      rewrite S12. apply remove_nat_In_ne; [|exact Hm2]. apply (i_pres _ _ _ _ _ _ _ Hi b m' Hab Htb Hbw Hm1). }
     split; [|exact Hi2].
     unfold buf_needsFree. erewrite bind_run by (apply need_run; exact Hab1).
     assert (Hk2 : kind_of s2 b = KPool) by (unfold kind_of, s2; simpl_st; rewrite S2, Htb; reflexivity).
